@@ -10,7 +10,30 @@ import sqimpl, evalimpl, monimpl          # noqa: E402
 ns = sqimpl.load()
 
 
+def audit_answer(req):
+    """evaluate each source in this pristine child with an audit hook armed around eval only (the parser is constructed
+    before): any file / process / network / import / code-execution event is reported"""
+    im = sqimpl.Impl(ns)
+    monimpl._install_audit()
+    out = []
+    for src in req['srcs']:
+        names = dict(evalimpl.Host({}).fns)
+        names.update({'s': 'a1b22c', 'l': [3, 1, 2], 'd': {'k': 1}})
+        monimpl._audit['events'].clear()
+        monimpl._audit['on'] = True
+        try:
+            im.p.eval(src, names, max_ops_evaluated=2000)
+        except BaseException:      # noqa: BLE001
+            pass
+        finally:
+            monimpl._audit['on'] = False
+        out.append(sorted(set(monimpl._audit['events'])))
+    return json.dumps(out)
+
+
 def answer(req):
+    if req.get('kind') == 'audit':
+        return audit_answer(req)
     host = evalimpl.Host({})
     im = sqimpl.Impl(ns)
     host.classify = im.classify
